@@ -62,7 +62,7 @@ func c07Delete(c *Ctx, m *Module) {
 				found := false
 				for _, st := range callsIn(fn, "os.Stat") {
 					if hasFact(cf, errNilOf(st.(*ssa.Call))) {
-						nm := describe(argsOf(st)[0])
+						nm := describeArg(st, 0)
 						if strings.Contains(nm, `".json"`) && (strings.Contains(nm, "LocalDir(") || strings.Contains(nm, "UploadDir(")) {
 							found = true
 							ev = "os.Stat(" + nm + ") succeeded: a report file for the week exists"
@@ -81,7 +81,7 @@ func c07Delete(c *Ctx, m *Module) {
 		if evidence == "" && fn == cr {
 			var localW, uploadW *ssa.Call
 			for _, w := range callsIn(fn, "internal/upload.exclusiveWrite") {
-				if strings.Contains(describe(argsOf(w)[0]), `"local."`) {
+				if strings.Contains(describeArg(w, 0), `"local."`) {
 					localW = w.(*ssa.Call)
 				} else {
 					uploadW = w.(*ssa.Call)
@@ -135,14 +135,14 @@ func c07Delete(c *Ctx, m *Module) {
 		// the slice deleted is the one folded
 		if fn == cr {
 			r.Check("C07.delete-after-report", site+"/deletes the folded files", m.Pos(cs.Pos()), argsOf(cs)[1] == ssa.Value(cr.Params[3]),
-				"createReport may delete only the files it was given; got "+describe(argsOf(cs)[1]))
+				"createReport may delete only the files it was given; got "+describeArg(cs, 1))
 		}
 	}
 	r.Check("C07.delete-after-report", "deleteFiles call sites enumerated", m.Pos(del.Pos()), n >= 2, fmt.Sprintf("%d call sites", n))
 	// os.Remove in deleteFiles only of its parameter's elements; no other remover of .count paths
 	for _, fn := range m.PkgFuncs("internal/upload") {
 		for _, cs := range callsIn(fn, "os.Remove", "os.RemoveAll") {
-			nm := describe(argsOf(cs)[0])
+			nm := describeArg(cs, 0)
 			switch fnameTop(fn) {
 			case "(*internal/upload.uploader).deleteFiles":
 				r.Check("C07.delete-after-report", "deleteFiles/removes its argument's elements", m.Pos(cs.Pos()), strings.HasPrefix(nm, "param:files["), "got "+nm)
@@ -216,11 +216,11 @@ func c07OnlyExpiredAs(c *Ctx, m *Module, ruleExp, ruleKey string) {
 	r.Check(ruleExp, "reports/has the per-week append", m.Pos(rep.Pos()), n == 1, fmt.Sprintf("%d append sites", n))
 	// createReport and deleteFiles receive exactly those lists
 	for _, cs := range callsIn(rep, "(*internal/upload.uploader).createReport") {
-		d := describe(argsOf(cs)[3])
+		d := describeArg(cs, 3)
 		r.Check(ruleExp, "reports/createReport gets the week's list", m.Pos(cs.Pos()), strings.HasPrefix(d, "rangeval(makemap:"), "got "+d)
 	}
 	for _, cs := range callsIn(rep, "(*internal/upload.uploader).deleteFiles") {
-		d := describe(argsOf(cs)[1])
+		d := describeArg(cs, 1)
 		r.Check(ruleExp, "reports/deleteFiles gets the week's list", m.Pos(cs.Pos()), strings.HasPrefix(d, "rangeval(makemap:"), "got "+d)
 	}
 	// findWork: countfiles append under ¬err ∧ ¬expiry.After(startTime)
@@ -274,7 +274,7 @@ func c07Writers(c *Ctx, m *Module) {
 			case "os.Remove", "os.RemoveAll", "os.MkdirAll", "(*os.File).Write":
 				continue
 			}
-			nm := describe(argsOf(e.Call)[0])
+			nm := describeArg(e.Call, 0)
 			if fname(fn) == "internal/upload.exclusiveWrite" {
 				continue
 			}
@@ -404,7 +404,7 @@ func c07AccumulateAs(c *Ctx, m *Module, rule string) {
 	}
 	// every file of the list is parsed: the loop ranges over the countFiles parameter
 	for _, cs := range callsIn(cr, "(*internal/upload.uploader).parseCountFile") {
-		d := describe(argsOf(cs)[1])
+		d := describeArg(cs, 1)
 		r.Check(rule, "createReport/parses each given file", m.Pos(cs.Pos()), strings.HasPrefix(d, "param:countFiles["), "got "+d)
 	}
 }
@@ -432,7 +432,7 @@ func c07WeekKey(c *Ctx, m *Module) {
 	}
 	r.Check("C07.week-key", "createReport/report.Week is the week key", m.Pos(cr.Pos()), found, "the local report's Week must be the expiryDate parameter")
 	for _, cs := range callsIn(cr, "internal/upload.exclusiveWrite") {
-		d := describe(argsOf(cs)[0])
+		d := describeArg(cs, 0)
 		r.Check("C07.week-key", "createReport/file name carries the week key", m.Pos(cs.Pos()), strings.Contains(d, "param:expiryDate") && strings.Contains(d, `".json"`) && strings.Contains(d, "LocalDir("), "got "+d)
 	}
 	rep := m.Func("internal/upload", "uploader.reports")
